@@ -36,6 +36,8 @@ pub const PROGRAM_SLICES: [&str; 5] = ["gc", "heap", "heap-local", "fun", "mix"]
 
 fn run(sh: &mut Shard) {
     let tier = sh.cfg.tier;
+    // the caller releases results with the interpreter's own Object::free_recursive (nothing released twice)
+    crate::outcome::set_release_with_api(true);
     gcprog::count_ladder(sh, "C03");
     heapmc::explore(sh, &bounds(tier), "C03");
     if !sh.running() {
